@@ -753,7 +753,10 @@ fn c15_oracle(spec: &ServerSpec, run: &ServerRun) -> Vec<Violation> {
         if ps.dest[p] {
             // exactly one notification, unless the machine had not even been given a policy yet
             let scheduled_before = run.calls.iter().any(|c| c.what == "schedule" && c.party == p && c.comp == comp && c.issued_seq < call.issued_seq);
-            if outs.len() > 1 || (scheduled_before && outs.is_empty()) {
+            // (http mode: cancel is the node's graceful shutdown, which swallows the result of the
+            // individual cancel calls - 'no notification' cannot be told from 'cancel answered with an
+            // error because the machine had ended on its own', so only 'more than one' is judged)
+            if outs.len() > 1 || (scheduled_before && outs.is_empty() && !spec.http) {
                 v.push(viol(
                     "cancel-notification-count",
                     &format!("cancel-notification-count:{}", outs.len()),
@@ -804,7 +807,7 @@ impl Check for C15 {
         "fault_enumeration"
     }
     fn rule(&self) -> String {
-        "for each base configuration (n in {2,3}, every leader, with / without constants and destinations) the undisturbed run is recorded; then cancel() is invoked on party p after the k-th event, for every k of the run (all states Init .. Executing, including 'cancel queued behind the internal run command' reached by cancelling while the compile job is parked, and, with individually explored MPC messages, every point of the MPC phase) and every p, replaying the base decisions around it; every point once after the system quiesced and once in the same step as the preceding event (burst: both commands queued back to back, which is the only way to meet state Running); a third of the runs additionally fail one run / consts RPC so that cancel has to stay synchronised with tasks that can still notify the destination, another third deliver one run request twice (a retrying client; the copy is refused) before the cancel. Oracle at the cancel-return event and at final quiescence: if cancel returned Ok the party's machine has stopped, a party with a destination was sent exactly one notification (Cancelled, or the real result if already sent) and none after the cancel returned, and its permits are all available; no task panics; a cancel call that never returns is a violation. distinct = (configuration, party, k)".into()
+        "for each base configuration (n in {2,3}, every leader, with / without constants and destinations) the undisturbed run is recorded; then cancel() is invoked on party p after the k-th event, for every k of the run (all states Init .. Executing, including 'cancel queued behind the internal run command' reached by cancelling while the compile job is parked, and, with individually explored MPC messages, every point of the MPC phase) and every p, replaying the base decisions around it; every point once after the system quiesced and once in the same step as the preceding event (burst: both commands queued back to back, which is the only way to meet state Running); a third of the runs additionally fail one run / consts RPC so that cancel has to stay synchronised with tasks that can still notify the destination, another third deliver one run request twice (a retrying client; the copy is refused) before the cancel, a sixth fail a validate request of the leader (its schedule handler then ends the machine without a notification; a cancel queued behind it must not report success). Oracle at the cancel-return event and at final quiescence: if cancel returned Ok the party's machine has stopped, a party with a destination was sent exactly one notification (Cancelled, or the real result if already sent) and none after the cancel returned, and its permits are all available; no task panics; a cancel call that never returns is a violation. distinct = (configuration, party, k)".into()
     }
     fn assumptions(&self) -> Vec<String> {
         vec!["single-threaded runtime only (DESIGN.md section 3); output deliveries are atomic".into(), "what the other parties do after a peer cancelled is not judged".into()]
@@ -917,6 +920,15 @@ impl Check for C15 {
                     let tos: Vec<usize> = (0..n).filter(|q| *q != leader).collect();
                     s.faults.push(RpcFault { kind: "run".into(), from: leader, to: tos[(i as usize / 3) % tos.len()], comp: 1, nth: 0, verdict: Verdict::Duplicate });
                     out.count("cancel_combined_with_a_duplicated_run_request", 1);
+                }
+                // and in the last share a validate request of the leader fails: the leader's schedule
+                // handler then ends the machine without a notification, and a cancel queued behind it
+                // must not report success
+                if i % 3 == 2 && i % 2 == 0 {
+                    let leader = base.policies[0].leader;
+                    let tos: Vec<usize> = (0..n).filter(|q| *q != leader).collect();
+                    s.faults.push(RpcFault { kind: "validate".into(), from: leader, to: tos[(i as usize / 6) % tos.len()], comp: 1, nth: 0, verdict: if i % 4 == 0 { Verdict::FailBefore } else { Verdict::FailAfter } });
+                    out.count("cancel_combined_with_a_failing_validate_request", 1);
                 }
                 cx.begin(&serde_json::to_value(&s).unwrap());
                 let run = server::run(&s);
